@@ -100,7 +100,7 @@ package resource
 //@
 //@ func (*Value).set(value, request) (res, err)
 //@   requires wfValue(recv) && !isnil(value)
-//@   requires value != recv.value     // callers hand in their own message, never the stored one
+//@   requires ref(value) != ref(recv.value)     // callers hand in their own message, never the stored one
 //@   track Send
 //@   // C01: a failing call changes nothing and emits nothing (the only error after the commit is the send timeout, C09)
 //@   ensures [fail-unchanged] err != nil && calls(Send) == old(calls(Send)) ==> recv.value == old(recv.value) && recv.changeTime == old(recv.changeTime)
@@ -110,6 +110,7 @@ package resource
 //@   ensures [one-event] err == nil ==> calls(Send) == old(calls(Send)) + 1
 //@   ensures [event-value] err == nil ==> istype(lastarg(Send, 2), *ValueChange) && cast(lastarg(Send, 2), *ValueChange).Value == res
 //@   ensures [event-time] err == nil ==> cast(lastarg(Send, 2), *ValueChange).ChangeTime == recv.changeTime
+//@   replay [event-time] ValueEventTime()
 //@   ensures [at-most-one-event] calls(Send) <= old(calls(Send)) + 1
 //@   // C07: the stored message is a fresh object, never the caller's message nor the previous stored one, and the
 //@   // previously stored message is left exactly as it was
